@@ -48,11 +48,12 @@ RoundTrip ==
      /\ ParseReq(b \o <<0>>).extra = 1                                  \* trailing bytes are seen
 
 \* --- what C06 demands of one recorded vector ---
-\* v = [req, kind \in {"host","v4","v6"}, name (bytes of the target text), addr (packed literal or <<>>),
+\* v = [req, kind \in {"host","v4","v6","v6zone"}, name (bytes of the target text), addr (packed literal or <<>>),
 \*      port, first (bytes sent before the method reply), second (bytes sent after it), err]
 IsAscii(s) == \A i \in 1..Len(s) : s[i] < 128
 Encodable(v) ==
   CASE v.kind = "host" -> Len(v.name) >= 1 /\ Len(v.name) <= 255 /\ IsAscii(v.name) /\ v.req # "RESOLVE_PTR"
+    [] v.kind = "v6zone" -> FALSE      \* an IPv6 literal with a zone id (fe80::1%eth0): a SOCKS address cannot carry the zone
     [] OTHER -> TRUE
 
 \* acceptable requests for v (a set: where the statement leaves a choice, all are listed)
